@@ -10,3 +10,9 @@ import "verif/mon"
 func rc2Direct(m *mon.M, n int) {
 	m.Count("rc2_direct_stream_absent_no_hook", 1)
 }
+
+const rc2HookAvailable = false
+
+func rc2ForConcurrent(key []byte, t1 int) (blk, *oracle, error) {
+	panic("rc2 hook absent")
+}
